@@ -4,6 +4,8 @@ import (
 	"fmt"
 	"go/token"
 	"go/types"
+	"os"
+	"sort"
 	"strings"
 
 	"ikeverif/checker/xt/ssa"
@@ -124,6 +126,7 @@ func (c *Ctx) prfPlusRules(r *Report, prefix string) {
 	}
 	// identify by structure rather than by name: stream φ is the one fed by Sum; block φ by a slice of the Sum result
 	var write, sum, reset, size *ssa.Call
+	var writes []*ssa.Call
 	for _, b := range sortedBlocks(li.body) {
 		for _, ins := range b.Instrs {
 			call, ok := ins.(*ssa.Call)
@@ -133,6 +136,7 @@ func (c *Ctx) prfPlusRules(r *Report, prefix string) {
 			switch call.Call.Method.Name() {
 			case "Write":
 				write = call
+				writes = append(writes, call)
 			case "Sum":
 				sum = call
 			case "Reset":
@@ -156,6 +160,7 @@ func (c *Ctx) prfPlusRules(r *Report, prefix string) {
 		r.bad(rule, "lib.PrfPlus: Reset/Write/Sum/Size on the prf parameter inside the loop", c.Pos(fn.Pos()), "one of Reset, Write, Sum, Size is missing in the loop body")
 		return
 	}
+	structBlock := false
 	for _, ins := range li.header.Instrs {
 		if p, ok := ins.(*ssa.Phi); ok && isByteSlice(p.Type()) {
 			for _, e := range p.Edges {
@@ -163,8 +168,22 @@ func (c *Ctx) prfPlusRules(r *Report, prefix string) {
 					streamPhi = p
 				} else if sl, ok := e.(*ssa.Slice); ok && sl.X == ssa.Value(sum) {
 					blockPhi = p
+					structBlock = true
 				}
 			}
+		}
+	}
+	if !structBlock && blockPhi != nil && blockPhi != streamPhi {
+		// a loop-carried byte slice that is not cut from the Sum result (a reused scratch buffer for the PRF input)
+		// is not the chaining block; the offset forms below apply
+		cut := false
+		for _, e := range blockPhi.Edges {
+			if sl, ok := e.(*ssa.Slice); ok && (sl.X == ssa.Value(sum) || sl.X == ssa.Value(streamPhi)) {
+				cut = true
+			}
+		}
+		if !cut {
+			blockPhi = nil
 		}
 	}
 	// offset form of the chaining block: an integer φ off with T(n-1) = stream[off:], off = 0 at first and
@@ -178,7 +197,12 @@ func (c *Ctx) prfPlusRules(r *Report, prefix string) {
 				continue
 			}
 			zero, step := false, false
-			for _, e := range p.Edges {
+			if os.Getenv("IKELINT_DEBUG_PRFPLUS") != "" {
+				for _, e := range p.Edges {
+					fmt.Fprintf(os.Stderr, "prf+: phi %s edge %s = %s; len(sum) = %s size = %s\n", p.Name(), e.Name(), f.Show(f.LFOf(e)), f.Show(f.SliceLen(sum)), f.Show(f.LFOf(size)))
+				}
+			}
+			for i, e := range p.Edges {
 				if k, ok := e.(*ssa.Const); ok {
 					if v, _ := constInt64(k.Value); v == 0 {
 						zero = true
@@ -187,6 +211,9 @@ func (c *Ctx) prfPlusRules(r *Report, prefix string) {
 					step = true
 				} else if f.LFOf(e).key() == f.LFOf(size).key() {
 					step, offIsFeedback = true, true // the number of octets fed back: T(n-1) = stream[len(stream)-q:]
+				} else if li.body[li.header.Preds[i]] && f.EqualAt(f.LFOf(e), f.LFOf(size), li.header.Preds[i]) {
+					// the same through a variable that holds Size() whenever the loop runs (set under streamLen > 0)
+					step, offIsFeedback = true, true
 				}
 			}
 			if zero && step {
@@ -202,7 +229,7 @@ func (c *Ctx) prfPlusRules(r *Report, prefix string) {
 			}
 		}
 	}
-	if streamPhi == nil || (blockPhi == nil && offPhi == nil) || iPhi == nil {
+	if streamPhi == nil || (blockPhi == nil && offPhi == nil && len(writes) <= 1) || iPhi == nil {
 		r.bad(rule, "lib.PrfPlus: loop state", c.Pos(fn.Pos()), "cannot identify the stream, block and counter loop variables")
 		return
 	}
@@ -213,7 +240,77 @@ func (c *Ctx) prfPlusRules(r *Report, prefix string) {
 	// Write arg = block | s | byte(i), built by appends or in a buffer of the final size
 	okW, detail := false, "Write argument is not block | s | byte(i)"
 	fw := c.NewFA(fn)
-	if parts, ok := c.concatOf(fw, write.Call.Args[0], write, 0); ok {
+	streamed, chained := false, false
+	if len(writes) > 1 {
+		// the same data fed piecewise: an optional first Write of the chaining block (skipped in the first round, where
+		// T(0) is empty), then Write(s), then Write of the one counter octet; all between Reset and Sum
+		sort.Slice(writes, func(a, b int) bool {
+			return dominatesInstr(writes[a], writes[b]) || writes[a].Block().Index < writes[b].Block().Index
+		})
+		var parts []cpart
+		okS := true
+		why := ""
+		for k, w := range writes {
+			if !dominatesInstr(reset, w) {
+				okS, why = false, "a Write is not behind Reset"
+			}
+			ps, ok := c.concatOf(fw, w.Call.Args[0], w, 0)
+			if !ok {
+				ps = []cpart{{Kind: "slice", Val: w.Call.Args[0], Len: fw.SliceLen(w.Call.Args[0])}}
+			}
+			if !dominatesInstr(w, sum) {
+				// a conditional Write: only the first, of stream[len(stream)-Size():], skipped exactly when i == 1
+				sl, isSl := w.Call.Args[0].(*ssa.Slice)
+				if k != 0 || !isSl || sl.X != ssa.Value(streamPhi) || sl.High != nil || sl.Low == nil ||
+					!fw.EqualAt(fw.LFOf(sl.Low), fw.SliceLen(streamPhi).add(fw.LFOf(size), -1), w.Block()) {
+					okS, why = false, "a conditional Write that is not the chaining block stream[len(stream)-Size():]"
+					continue
+				}
+				// the condition: i > 1 / i != 1 on the counter
+				condOK := false
+				for bb := w.Block(); bb != nil && li.body[bb]; bb = bb.Idom() {
+					if len(bb.Preds) != 1 {
+						continue
+					}
+					pb := bb.Preds[0]
+					iff, isIf := pb.Instrs[len(pb.Instrs)-1].(*ssa.If)
+					if !isIf || pb == li.header {
+						continue
+					}
+					var fs []Fact
+					fw.condFacts(iff.Cond, pb.Succs[0] == bb, &fs)
+					// passing side: i - 2 >= 0 (or i != 1 with i >= 1)
+					for _, ft := range fs {
+						g := fw.LFOf(iPhi).add(konst(2), -1)
+						if !ft.NE && ft.L.key() == g.key() {
+							condOK = true
+						}
+						if ft.NE && ft.L.key() == fw.LFOf(iPhi).add(konst(1), -1).key() {
+							condOK = true
+						}
+					}
+					// and the other side goes on to the next Write (nothing else is skipped)
+				}
+				if !condOK {
+					okS, why = false, "the chaining block is not skipped exactly in the first round"
+				} else {
+					chained = true
+				}
+				continue
+			}
+			parts = append(parts, ps...)
+		}
+		want := []cpart{{Kind: "slice", Val: fn.Params[1]}, {Kind: "byte", Val: iPhi}}
+		if okS && iPhi != nil && sameParts(parts, want) {
+			streamed, okW = true, true
+			detail = "Write(T(n-1)) unless n == 1; Write(s); Write(byte(i))"
+		} else if why != "" {
+			detail = "streamed writes: " + why
+		} else {
+			detail = "streamed writes are " + partsString(fw, parts) + ", expected [T(n-1)] s byte(i)"
+		}
+	}
+	if parts, ok := c.concatOf(fw, write.Call.Args[0], write, 0); ok && !streamed && len(writes) <= 1 {
 		var blockVal ssa.Value = blockPhi
 		if blockPhi == nil && len(dropEmpty(parts)) > 0 {
 			// the first piece must be stream[off:]
@@ -261,7 +358,16 @@ func (c *Ctx) prfPlusRules(r *Report, prefix string) {
 	okB := false
 	initNil := false
 	posB := c.Pos(fn.Pos())
-	if blockPhi != nil {
+	if streamed {
+		// the chaining block is the conditional first Write checked above; T(0) is empty because that Write is
+		// skipped in the first round, and the stream starts empty
+		okB = chained
+		for i, e := range streamPhi.Edges {
+			if !li.body[li.header.Preds[i]] && emptySliceValue(e, 0) {
+				initNil = true
+			}
+		}
+	} else if blockPhi != nil {
 		posB = c.InstrPos(blockPhi)
 		for _, e := range blockPhi.Edges {
 			if sl, ok := e.(*ssa.Slice); ok && sl.X == ssa.Value(sum) && sl.High == nil && sl.Low != nil {
@@ -280,8 +386,8 @@ func (c *Ctx) prfPlusRules(r *Report, prefix string) {
 		// offset form: identified above by exactly these two edges; T(0) is empty because the stream starts nil
 		posB = c.InstrPos(offPhi)
 		okB = true
-		for _, e := range streamPhi.Edges {
-			if isNilConst(e) {
+		for i, e := range streamPhi.Edges {
+			if !li.body[li.header.Preds[i]] && emptySliceValue(e, 0) {
 				initNil = true
 			}
 		}
@@ -297,6 +403,38 @@ func (c *Ctx) prfPlusRules(r *Report, prefix string) {
 		}
 	}
 	r.Check(okR, rule, "lib.PrfPlus: result = stream[:streamLen]", c.Pos(fn.Pos()), "truncated to the requested length", "the result is not the first streamLen octets of the stream")
+}
+
+// emptySliceValue: v is a slice of length 0 whatever path produced it: nil, make(T, 0, n), x[:0], or a φ of such.
+func emptySliceValue(v ssa.Value, depth int) bool {
+	if depth > 4 {
+		return false
+	}
+	switch x := v.(type) {
+	case *ssa.Const:
+		return x.Value == nil
+	case *ssa.MakeSlice:
+		k, ok := x.Len.(*ssa.Const)
+		return ok && k.Value != nil && k.Value.ExactString() == "0"
+	case *ssa.Slice:
+		if x.High != nil {
+			if k, ok := x.High.(*ssa.Const); ok && k.Value != nil && k.Value.ExactString() == "0" {
+				return true
+			}
+		}
+		return false
+	case *ssa.Phi:
+		for _, e := range x.Edges {
+			if e == ssa.Value(x) {
+				continue
+			}
+			if !emptySliceValue(e, depth+1) {
+				return false
+			}
+		}
+		return true
+	}
+	return false
 }
 
 // RunC07 decides property C07.
